@@ -366,11 +366,18 @@ func runScenario(sc *Scenario) (res *result) {
 	// ---- judge ----
 	res.idx, res.cls, res.final = Judge(res.log)
 	res.peerOver = res.final.peerOverrun
-	if res.idx >= 0 {
-		res.quiescent, res.qobs = false, nil
-		return res
-	}
 	o := res.final
+	if res.idx >= 0 {
+		// end-of-scenario checks still apply when every per-event violation is one of
+		// the apply/ack-vs-write races (the connection stays consistent after those)
+		res.quiescent, res.qobs = false, nil
+		o = NewOracle()
+		for i := range res.log {
+			if c := o.Step(&res.log[i]); c != 0 && !strings.HasPrefix(shapeOf(res, c, i), "race-") {
+				return res
+			}
+		}
+	}
 	for _, s := range stalls {
 		res.endClasses = append(res.endClasses, endViolation{clsStreamStalled, fmt.Sprintf(
 			"stream %d (request %d): peer sent %d bytes, the app consumed all of them, the stream receive window at the peer is %d and no WINDOW_UPDATE arrived before the PING ack",
@@ -396,7 +403,7 @@ func runScenario(sc *Scenario) (res *result) {
 				"%d SETTINGS frames unacknowledged after the final PING ack", len(o.pending)), len(res.log)})
 		}
 	}
-	if len(res.endClasses) > 0 {
+	if len(res.endClasses) > 0 || res.idx >= 0 {
 		res.quiescent, res.qobs = false, nil
 	}
 	if res.qobs != nil {
@@ -624,10 +631,32 @@ func report(r *hk.Run, res *result) {
 		r.Fail(hk.Failure{Sig: "trace:harness-peer-overrun:" + sc.Kind, What: "HARNESS BUG: the scripted peer exceeded a window the client granted", Input: input(len(res.log))})
 	}
 	if res.idx >= 0 {
-		r.Count("violation." + className[res.cls])
-		r.Fail(hk.Failure{Sig: fmt.Sprintf("trace:%s:%s", className[res.cls], shapeOf(res, res.cls, res.idx)),
-			What:  fmt.Sprintf("event %d (%s) violates %s [scenario %s]", res.idx, res.log[res.idx].String(), className[res.cls], sc.Kind),
-			Input: input(res.idx)})
+		// The first violation is the verdict (also replayed by the Coq monitor). If it is
+		// one of the apply/ack-vs-write races the replay continues, so that a different
+		// defect behind it is not masked: further violations are reported up to and
+		// including the first one that is not such a race.
+		seen := map[string]bool{}
+		o := NewOracle()
+		for i := range res.log {
+			c := o.Step(&res.log[i])
+			if c == 0 {
+				continue
+			}
+			shape := shapeOf(res, c, i)
+			sig := fmt.Sprintf("trace:%s:%s", className[c], shape)
+			if !seen[sig] {
+				seen[sig] = true
+				r.Count("violation." + className[c])
+				what := fmt.Sprintf("event %d (%s) violates %s [scenario %s]", i, res.log[i].String(), className[c], sc.Kind)
+				if i != res.idx {
+					what += fmt.Sprintf(" (after the race-classified first violation at event %d)", res.idx)
+				}
+				r.Fail(hk.Failure{Sig: sig, What: what, Input: input(i)})
+			}
+			if !strings.HasPrefix(shape, "race-") {
+				break
+			}
+		}
 	}
 	for _, v := range res.endClasses {
 		r.Count("violation." + className[v.cls])
